@@ -42,7 +42,7 @@ META = {
         "default-path of the setting request is not demanded, so the path of the setting request is not enumerated",
         "public-suffix rejection (§5.3 step 5) is not part of §5.1.3: Domain=com set by example.com counts as matching",
         "'expired cookie is removed' is judged for a Set-Cookie that is already expired when it arrives (past Expires, "
-        "Max-Age=0): it must not be stored itself, and a cookie set earlier by the same host:port with the same name, "
+        "Max-Age=0, negative Max-Age; a non-numeric Max-Age is ignored per RFC 6265 5.2.2): it must not be stored itself, and a cookie set earlier by the same host:port with the same name, "
         "Domain and Path attributes must be gone afterwards (whether an equivalent Set-Cookie from another host must "
         "delete it too is left open); cookies that would expire later by the passage of time are not modelled (the "
         "clock in net.http.cookies is frozen)",
@@ -74,8 +74,10 @@ EXPIRY = {
     "maxage_future": "; Max-Age=3600",
     "past": "; Expires=Thu, 01 Jan 2015 00:00:00 GMT",
     "maxage0": "; Max-Age=0",
+    "maxage_negative": "; Max-Age=-1",      # RFC 6265 5.2.2: delta <= 0 -> earliest time, i.e. expired
+    "maxage_garbage": "; Max-Age=soon",     # RFC 6265 5.2.2: not a number -> the attribute is ignored (session cookie)
 }
-EXPIRED = {"past", "maxage0"}
+EXPIRED = {"past", "maxage0", "maxage_negative"}
 NAME = "c"
 
 WIDE = {
@@ -87,21 +89,22 @@ WIDE = {
     "expiry": ["none", "future", "past", "maxage0"],
     "rpaths": ["/", "/a", "/a/b", "/ab"],
 }
-# IP-literal hosts (never domain-match anything but themselves) and a query string that contains the cookie path
+# IP-literal hosts (never domain-match anything but themselves), query strings that contain the cookie path,
+# cookie and request paths with and without a trailing slash, every spelling of Max-Age
 EDGE = {
     "hosts": ["10.0.0.1", "20.0.0.1", "0.0.1", "example.com"],
     "ports": [80],
     "domains": [None, ".0.0.1", "0.0.1", "10.0.0.1"],
-    "cpaths": [None, "/a"],
-    "expiry": ["none", "maxage_future", "maxage0"],
-    "rpaths": ["/", "/a?x=/ab", "/?x=/a", "/ab?x=/a/"],
+    "cpaths": [None, "/a", "/a/"],
+    "expiry": ["none", "maxage_future", "maxage0", "maxage_negative", "maxage_garbage"],
+    "rpaths": ["/", "/a", "/a/", "/a/b", "/ab", "/b/a", "/a?x=/ab", "/?x=/a", "/ab?x=/a/"],
 }
 CORE = {
     "hosts": ["example.com", "www.example.com", "www.example.com.evil.org", "badexample.com"],
     "ports": [80, 8080],
     "domains": [None, ".example.com", "example.com"],
     "cpaths": [None, "/a"],
-    "expiry": ["none", "past", "maxage0"],
+    "expiry": ["none", "past", "maxage0", "maxage_negative"],
     "rpaths": ["/", "/a", "/ab"],
 }
 CORE_QUICK = dict(CORE, expiry=["none", "past"])
